@@ -161,7 +161,7 @@ def layer_checks(job):
 def e2e_check(job):
     cfg, seed = job["cfg"], job["seed"]
     rng = np.random.default_rng(seed)
-    mol = M.make_mol("H2O")
+    mol = M.make_mol("H2O", basis=job.get("basis", "sto-3g"))      # basis layout (segmented / generally contracted) is a dimension
     viol, n = [], 0
     tag = "%s:%s:%s:%s:%s:%s" % (cfg["sl"], cfg["nldf"], cfg["sdmx"], cfg["eval"], cfg["mode"], cfg["mix"])
     try:
@@ -181,6 +181,18 @@ def e2e_check(job):
                                                                          "dv_b": float(np.abs(vu[1] - vr).max())}})
     if abs(nu[0] + nu[1] - nr) > 1e-10 * (1 + abs(nr)):
         viol.append({"site": "e2e:nelec-rks-vs-uks", "detail": {"cfg": cfg}})
+    # ---- the public route ks.to_uks() SHARES the integrator object: an unpolarised evaluation followed by a polarised one on
+    # the same integrator (and back) must still agree with the fresh objects above
+    try:
+        ks2 = kr.to_uks()
+        shared = ks2._numint is kr._numint
+        nu2, eu2, vu2 = ks2._numint.nr_uks(mol, kr.grids, kr.xc, np.stack([D / 2, D / 2]))
+        nr2, er2, vr2 = kr._numint.nr_rks(mol, kr.grids, kr.xc, D)
+        n += 1
+        if abs(eu2 - er) > TOL * (1 + abs(er)) or np.abs(vu2[0] - vr).max() > 1e-9 * sc or abs(er2 - er) > TOL * (1 + abs(er)) or np.abs(vr2 - vr).max() > 1e-9 * sc:
+            viol.append({"site": "e2e:rks-then-uks-on-shared-integrator:" + tag, "detail": {"cfg": cfg, "shared": bool(shared), "dE_uks": float(eu2 - er), "dE_rks_again": float(er2 - er)}})
+    except NotImplementedError:
+        pass
     # ---- exchange of the spin labels
     n1, e1, v1 = ku._numint.nr_uks(mol, ku.grids, ku.xc, np.stack([Da, Db]))
     n2, e2, v2 = ku._numint.nr_uks(mol, ku.grids, ku.xc, np.stack([Db, Da]))
@@ -226,7 +238,8 @@ def main():
     ck.extra["pairwise_pairs_covered"] = "%d of %d" % (ncov, nall)
     jobs = [{"id": 0, "layers": True, "seed": ck.seed}]
     for k, c in enumerate(chosen):
-        jobs.append({"id": k + 1, "cfg": c, "seed": ck.seed * 1000 + k})
+        c = dict(c, base=(("lda", "gga", "ssos")[k % 3] if c["mix"] == "libxc2" else ("lda", "gga", "damp" if (c["sl"] == "npa" and c["nldf"] != "none") else "gga", "chachiyo")[k % 4]))
+        jobs.append({"id": k + 1, "cfg": c, "seed": ck.seed * 1000 + k, "basis": "cc-pvdz" if k % 4 == 1 else "sto-3g"})
     ck.log("model: %s; replaying %d configurations + layer identities" % (r, len(chosen)))
     for res in run_workers(os.path.abspath(__file__), jobs, nproc=16, timeout=7000):
         if "crash" in res:
